@@ -41,8 +41,11 @@ import (
 //              x  a request arrives with an already cancelled context; executed only while the gate is
 //                 full (in-flight gauge >= cap: then Start fails deterministically), otherwise skipped
 //              c  the context of the oldest request blocked in gate.Start is cancelled
+//              k  the context of the oldest request inside the write path is cancelled (the client went
+//                 away / the server gave up on it): it keeps its slot until the handler returns
 //              f  the oldest request inside the write path is released and completes
-//   answer: per step `running.waiting.gauge` at quiescence, `,`-joined, then ` p=<handler panics> max=<max requests inside the write path>`
+//       cap 0: the limits configuration sets no max_concurrency: the limiter keeps gate.NewNoop()
+//   answer: per step `running.waiting.gauge.total` at quiescence (gauge / total = the gate's in-flight gauge and total counter), `,`-joined, then ` p=<handler panics> max=<max requests inside the write path>`
 //
 // Quiescence is established without timing assumptions: every launched request must be accounted
 // for as returned, blocked inside the scripted peer, or parked in the select of
@@ -63,6 +66,7 @@ type gateReq struct {
 	cancel   context.CancelFunc
 	entered  bool
 	released bool
+	killed   bool
 	returned bool
 	status   string
 	release  chan struct{}
@@ -142,25 +146,32 @@ func newGateEnv(capacity int, otlp bool) (*gateEnv, error) {
 		Endpoint:                "local-endpoint-not-in-the-ring",
 		Writer:                  receive.NewWriter(log.NewNopLogger(), nil, nil),
 		Limiter:                 limiter,
-		AsyncForwardWorkerCount: 8,
+		AsyncForwardWorkerCount: 64,
 	}
 	g.h = receive.NewHandler(log.NewNopLogger(), opts)
-	receive.VerifSetPeers(g.h, 8, func(receive.Endpoint) (receive.VerifPeerClient, error) { return &gatePeer{g}, nil })
+	receive.VerifSetPeers(g.h, 64, func(receive.Endpoint) (receive.VerifPeerClient, error) { return &gatePeer{g}, nil })
 	g.h.Hashring(&scriptRing{placement: map[string][]int{}, fallback: true})
 	return g, nil
 }
 
-func (g *gateEnv) gauge() int {
+// gauge / total read the gate's metrics; a limiter without a gate registers none (reported as 0).
+func (g *gateEnv) gauge() int { return g.metric("gate_write_requests_in_flight") }
+func (g *gateEnv) total() int { return g.metric("gate_write_requests_total") }
+
+func (g *gateEnv) metric(suffix string) int {
 	mfs, err := g.reg.Gather()
 	if err != nil {
 		return -999
 	}
 	for _, mf := range mfs {
-		if strings.HasSuffix(mf.GetName(), "gate_write_requests_in_flight") && len(mf.Metric) == 1 {
-			return int(mf.Metric[0].GetGauge().GetValue())
+		if strings.HasSuffix(mf.GetName(), suffix) && len(mf.Metric) == 1 {
+			if mf.Metric[0].Gauge != nil {
+				return int(mf.Metric[0].GetGauge().GetValue())
+			}
+			return int(mf.Metric[0].GetCounter().GetValue())
 		}
 	}
-	return -998
+	return 0
 }
 
 func otlpBody(id int) []byte {
@@ -325,11 +336,11 @@ func execC24(c *hlib.Ctx, tok []string) string {
 	}
 	capacity, err := strconv.Atoi(tok[2])
 	steps := hlib.Split(tok[3], ",")
-	if err != nil || capacity < 1 || capacity > 8 || len(steps) == 0 || len(steps) > 40 {
+	if err != nil || capacity < 0 || capacity > 8 || len(steps) == 0 || len(steps) > 40 {
 		return "bad-op"
 	}
 	for _, s := range steps {
-		if s != "a" && s != "x" && s != "c" && s != "f" {
+		if s != "a" && s != "x" && s != "c" && s != "f" && s != "k" {
 			return "bad-op"
 		}
 	}
@@ -345,13 +356,21 @@ func execC24(c *hlib.Ctx, tok []string) string {
 			g.launch(false)
 		case "x":
 			if g.gauge() >= capacity {
-				r := g.launch(true)
-				stuck = stuck || !g.waitReturned(r)
+				// with a gate it fails at once; without one (cap 0) Start does not look at the context
+				// and the request enters the write path: the quiescence check below covers both
+				g.launch(true)
 			}
 		case "c":
 			if r := g.oldest(func(r *gateReq) bool { return !r.entered && !r.returned }); r != nil {
 				r.cancel()
 				stuck = stuck || !g.waitReturned(r)
+			}
+		case "k":
+			if r := g.oldest(func(r *gateReq) bool { return r.entered && !r.released && !r.killed }); r != nil {
+				g.mu.Lock()
+				r.killed = true
+				g.mu.Unlock()
+				r.cancel()
 			}
 		case "f":
 			if r := g.oldest(func(r *gateReq) bool { return r.entered && !r.released }); r != nil {
@@ -364,7 +383,7 @@ func execC24(c *hlib.Ctx, tok []string) string {
 		}
 		running, waiting, ok := g.quiesce()
 		stuck = stuck || !ok
-		out = append(out, fmt.Sprintf("%d.%d.%d", running, waiting, g.gauge()))
+		out = append(out, fmt.Sprintf("%d.%d.%d.%d", running, waiting, g.gauge(), g.total()))
 		if stuck {
 			break
 		}
@@ -422,7 +441,7 @@ func execC24(c *hlib.Ctx, tok []string) string {
 		c.Violation("gate-stuck", "a step did not reach quiescence within the deadline: "+strings.Join(out, ","))
 		return strings.Join(out, ",") + " stuck"
 	}
-	if maxPeer > capacity {
+	if capacity >= 1 && maxPeer > capacity {
 		c.Violation("gate-exceeded", fmt.Sprintf("max_concurrency %d but %d requests were inside the write path at the same time", capacity, maxPeer))
 	}
 	if panics > 0 {
@@ -444,7 +463,7 @@ func genC24(c *hlib.Ctx) {
 		if len(prefix) == n {
 			return
 		}
-		for _, s := range []string{"a", "c", "f", "x"} {
+		for _, s := range []string{"a", "c", "f", "x", "k"} {
 			rec(append(append([]string(nil), prefix...), s), n, emit)
 		}
 	}
@@ -460,7 +479,10 @@ func genC24(c *hlib.Ctx) {
 					return
 				}
 				// keep the quick tier small: sample the exhaustive set
-				if c.Tier == "quick" && !r.Chance(1, 5) {
+				if c.Tier == "quick" && !r.Chance(1, 12) {
+					return
+				}
+				if c.Tier != "quick" && !r.Chance(1, 2) {
 					return
 				}
 				c.Count(fmt.Sprintf("exhaustive:%s:cap%d:len%d", entry, capacity, len(p)))
@@ -471,18 +493,23 @@ func genC24(c *hlib.Ctx) {
 	// longer random schedules, caps 1..4, biased towards full gates with waiters
 	for it := 0; it < c.N(100, 2000); it++ {
 		capacity := r.Range(1, 4)
+		if r.Chance(1, 10) {
+			capacity = 0 // no gate configured
+		}
 		n := r.Range(6, 16)
 		p := make([]string, n)
 		for i := range p {
-			switch x := r.Intn(10); {
+			switch x := r.Intn(11); {
 			case x < 5:
 				p[i] = "a"
 			case x < 7:
 				p[i] = "c"
 			case x < 9:
 				p[i] = "f"
-			default:
+			case x < 10:
 				p[i] = "x"
+			default:
+				p[i] = "k"
 			}
 		}
 		p[0] = "a"
